@@ -228,3 +228,52 @@ STUB_NOTES = [
     'io.Reader arguments: scripted readers (symbolic data, chunking, failure point); io.ReadFull/ReadAtLeast executed from their real SSA',
     'crypto.Hash.Size: documented digest sizes of the registered identifiers',
 ]
+
+
+class BigBytes:
+    """payload of a math/big.Int stub: the magnitude as a big-endian byte list (possibly symbolic, leading zeros allowed)"""
+    __slots__ = ('b',)
+
+    def __init__(self, b):
+        self.b = list(b)
+
+
+def install_bigint(m):
+    """math/big.Int restricted to what BuildASN1Signature uses (SetBytes, Sign, Bytes, BitLen): unsigned big-endian value"""
+    def payload(p):
+        t = m.load(p)
+        v = t[1] if isinstance(t, (list, tuple)) else t
+        return v.b if isinstance(v, BigBytes) else []
+
+    def c_setbytes(m, a):
+        m.store(a[0], [False, BigBytes(m.slice_elems(a[1]))])
+        return a[0]
+
+    def strip(p):
+        b = payload(p)
+        i = 0
+        while i < len(b) and m.ctx.branch(tm.eq(b[i], 0, 8)):
+            i += 1
+        return b[i:]
+
+    def c_sign(m, a):
+        return 1 if strip(a[0]) else 0
+
+    def c_bytes(m, a):
+        return m.new_byte_slice(strip(a[0]), 'big.Int.Bytes')
+
+    def c_bitlen(m, a):
+        b = strip(a[0])
+        if not b:
+            return 0
+        top = b[0]
+        n = 8
+        if isinstance(top, tm.T):
+            k = m.ctx.concretize(tm.bv('sub', 8, tm.trunc(__import__('engine.builtins_go', fromlist=['_clz'])._clz(top, 8), 8), 8), 8, 'bitlen')
+        else:
+            k = top.bit_length()
+        return 8 * (len(b) - 1) + k
+    m.contracts['(*math/big.Int).SetBytes'] = c_setbytes
+    m.contracts['(*math/big.Int).Sign'] = c_sign
+    m.contracts['(*math/big.Int).Bytes'] = c_bytes
+    m.contracts['(*math/big.Int).BitLen'] = c_bitlen
